@@ -17,9 +17,25 @@ verus! {
 
 pub assume_specification<T> [core::option::Option::<T>::replace] (o: &mut Option<T>, v: T) -> (r: Option<T>)
     ensures *final(o) == Some(v), r == *old(o);
-// opaque stand-in for crate::timers::Timers (timers are dropped by rule R7; only passed through)
+// stand-in for crate::timers::Timers (src/timers/timers.rs: HashMap / Instant, outside Verus).  Rule R7t writes the
+// timeit! / notimeit! macros of `solve` out as the calls they expand to, so the timer calls of the loop are part of the
+// verified text.  ASSUMED contract of the real type: `suspend` folds the running time of every active timer into the
+// accumulated total that `total_time()` reports (InnerTimer::suspend: elapsed += start.elapsed()); `folds()` counts those
+// events.  (An active timer contributes nothing to total_time() between two folds: that is why the loop must fold once
+// per iteration for the time limit to be observed, C04.)
 #[verifier::external_body]
 pub struct Timers { _p: u8 }
+impl Timers {
+    pub uninterp spec fn folds(&self) -> nat;
+    #[verifier::external_body] pub fn start_as_current(&mut self, key: &'static str)
+        ensures final(self).folds() == old(self).folds() { unimplemented!() }
+    #[verifier::external_body] pub fn stop_current(&mut self)
+        ensures final(self).folds() >= old(self).folds() { unimplemented!() }
+    #[verifier::external_body] pub fn suspend(&mut self)
+        ensures final(self).folds() == old(self).folds() + 1 { unimplemented!() }
+    #[verifier::external_body] pub fn resume(&mut self)
+        ensures final(self).folds() == old(self).folds() { unimplemented!() }
+}
 #[verifier::external_type_specification]
 #[verifier::external_body]
 pub struct ExIoError(std::io::Error);
@@ -73,6 +89,8 @@ ret=r
     // ghost history: the values written to the iteration column of the progress table (C20);
     // it is a function of the print target stored inside the info object
     spec fn printed(&self) -> Seq<u32>;
+    // ghost: the value of timers.folds() at which the solve time held by this object was read (C04: time limit)
+    spec fn time_stamp(&self) -> nat;
 //@sig print_configuration
 ret=r
     // ASSUMED for every implementation: printing succeeds (an I/O error would make `solve` panic
@@ -88,6 +106,7 @@ ret=r
     ensures r is Ok, final(self).status() == old(self).status(), final(self).iterations() == old(self).iterations(),
             settings.core_spec().verbose ==> final(self).printed() == old(self).printed().push(old(self).iterations()),
             !settings.core_spec().verbose ==> final(self).printed() == old(self).printed(),
+            final(self).time_stamp() == old(self).time_stamp(),
 //@sig print_footer
 ret=r
     ensures r is Ok, final(self).status() == old(self).status(), final(self).iterations() == old(self).iterations(),
@@ -107,6 +126,8 @@ ret=r
 //@sig update
     ensures final(self).status() == old(self).status(), final(self).iterations() == old(self).iterations(),
             final(self).printed() == old(self).printed(),
+            // the solve time is read from the timers now: it covers everything folded in so far
+            final(self).time_stamp() == timers.folds(),
 //@sig check_termination
 ret=r
     requires old(self).status() == SolverStatus::Unsolved,
@@ -187,6 +208,7 @@ impl InfoPrint for DefaultInfo<F> {
     open spec fn status(&self) -> SolverStatus { self.status }
     open spec fn iterations(&self) -> u32 { self.iterations }
     open spec fn printed(&self) -> Seq<u32> { pt_view(self.stream) }
+    open spec fn time_stamp(&self) -> nat { time_stamp_of(self.solve_time) }
     // info_print.rs is write!/format! code: outside Verus; these four contracts stay ASSUMED for DefaultInfo
     // (Kani harnesses check the verbose==false half on the real code, C20)
     #[verifier::external_body] fn print_configuration(&mut self, settings: &DefaultSettings<F>, data: &DefaultProblemDataStub, cones: &CompositeConeStub) -> std::io::Result<()> { unimplemented!() }
@@ -229,6 +251,8 @@ spec fn column_ok(s: Seq<u32>, p0: Seq<u32>, upto: u32) -> bool {
     &&& forall|i: int| p0.len() <= i < s.len() ==> s[i] <= upto
 }
 spec fn is_terminal(s: SolverStatus) -> bool { s != SolverStatus::Unsolved }
+// ghost reading of DefaultInfo::solve_time: the fold count of the timers at which it was taken (see Timers above)
+pub uninterp spec fn time_stamp_of(t: F) -> nat;
 
 impl<D, V, R, K, C, I, SO, SE> Solver<D, V, R, K, C, I, SO, SE>
 where
@@ -241,7 +265,7 @@ where
     SO: Solution<D = D, V = V, I = I, SE = SE>,
     SE: Settings,
 {
-//@fn file=src/solver/core/solver.rs in="IPSolver<T, D, V, R, K, C, I, SO, SE> for Solver" name=solve rules=R7,R2,R1,drop:_print_banner(
+//@fn file=src/solver/core/solver.rs in="IPSolver<T, D, V, R, K, C, I, SO, SE> for Solver" name=solve rules=R7t,R2,R1,drop:_print_banner(
 //@contract
     requires old(self).timers is Some,
         // the constructor allocates the iterate, the two step vectors and the saved iterate with equal (n, m)
@@ -269,12 +293,16 @@ where
         let ghost p0 = old(self).info.printed();
         // C03: the iterate on which the figures currently held by `info` were computed (set at each info.update)
         let ghost mut figs_on = self.variables;
+        // C04 (time limit): number of timer folds when the loop is entered
+        let ghost f0 = timers.folds();
 //@loop 1
             invariant_except_break
                 self.info.status() == SolverStatus::Unsolved,
             invariant
                 self.settings.core_spec() == cs, cs.max_iter == max_iter, cs.verbose == verbose,
                 iter <= max_iter,
+                // C04: the timers were folded at least once per completed iteration ...
+                timers.folds() >= f0 + iter,
                 self.variables.dims_spec() == self.prev_vars.dims_spec(),
                 !verbose ==> self.info.printed() == p0,
                 column_ok(self.info.printed(), p0, iter),
@@ -294,6 +322,10 @@ where
             decreases (if scaling == ScalingStrategy::PrimalDual { 1int } else { 0int }), max_iter - iter,
 //@after "self.info.update("
             proof { figs_on = self.variables; }
+//@before "let isdone = self.info.check_termination("
+            // C04 "once time_limit is exceeded stops with MaxTime at the next iteration boundary": the solve time that the
+            // termination test of iteration `iter` looks at was read after all of the earlier iterations' time was folded in
+            assert(self.info.time_stamp() >= f0 + iter);
 //@before "self.info.save_prev_iterate("
             // C03: what is saved for a later roll-back is a consistent pair: the figures in `info` were computed on
             // exactly the iterate that is copied into prev_vars (the step is added only afterwards)
